@@ -16,6 +16,9 @@ REG = Registry()
 REG.classes = {}
 REG.transparent_invariants = {}
 REG.builtin_method_effects = {}
+REG.opaque_classes = {}
+REG.used_opaque = set()
+REG.dict_universes = {}
 
 
 class PreFail(Exception):
@@ -238,11 +241,15 @@ class Contract(object):
         self.raises_exact = bool(rx)
         self.trusted = g("trusted", None)  # reason string: contract assumed, body not verified
         self.ghost = {k: [_parse(x) for x in v] for k, v in g("ghost", {}).items()}
+        self.str_domains = dict(g("str_domains", {}))
         self.properties = g("properties", [])
 
     def resolve_classes(self):
         out = []
         for (name, _, cond) in self.raises:
+            if name.startswith("@"):
+                out.append((name, None, cond))  # the class passed as that parameter
+                continue
             cls = self.sidecar_globals.get(name)
             if cls is None:
                 try:
@@ -276,3 +283,13 @@ def spec(fq):
 
 def register_class(name, fq):
     REG.classes[name] = fq
+
+
+def opaque_class(fq, kind, reason):
+    """Instances are opaque objects; their methods are given trusted models (listed in the evidence)."""
+    REG.opaque_classes[fq] = kind
+    REG.opaque_calls[fq] = reason
+
+
+def dict_universe(clsname, keys):
+    REG.dict_universes[clsname] = list(keys)
